@@ -32,7 +32,8 @@ WATCHDOG = {'quick': 600, 'thorough': 3600}
 MIN = {'quick': {'distinct': 200000,
                  'hooks': {'trees.parse_label': 30000,
                            'trees.format_label': 30000,
-                           'trees.get_label': 2000}},
+                           'trees.get_label': 2000},
+                 'strata': {'get_label: head that is not a head block': 100}},
        'thorough': {'distinct': 2000000,
                     'hooks': {'trees.parse_label': 2000000}}}
 
@@ -293,6 +294,14 @@ def check_get_label(ctx, rng, subset=None):
     node = T.Tree(T.make_node_data())
     node.data.update(label=label, edge=edge, head=head, split=split,
                      block_number=block)
+    # what boyd_split leaves on the nodes: every node gets a head_block flag,
+    # the blocks of a split head child are all heads and one of them is the
+    # head block; the head mark follows `head` alone
+    head_block = rng.choice([None, True, False])
+    if head_block is not None:
+        node.data['head_block'] = head_block
+        if head and not head_block:
+            ctx.stratum('get_label: head that is not a head block')
     if is_cons:
         kid = T.Tree(T.make_node_data())
         kid.data.update(label='NN', word='w', num=1, edge='--')
@@ -314,7 +323,8 @@ def check_get_label(ctx, rng, subset=None):
         else:
             params[o] = True
     case = {'kind': 'get_label', 'label': label, 'edge': edge, 'head': head,
-            'split': split, 'block': block, 'cons': is_cons, 'params': params}
+            'split': split, 'block': block, 'cons': is_cons, 'params': params,
+            'head_block': head_block}
     exp = label
     if 'gf' in params and edge != '--' and (is_cons or 'gf_terminals' in params):
         exp += sepv + edge
@@ -425,6 +435,8 @@ def replay(ctx, case):
         node.data.update(label=case['label'], edge=case['edge'],
                          head=case['head'], split=case['split'],
                          block_number=case['block'])
+        if case.get('head_block') is not None:
+            node.data['head_block'] = case['head_block']
         if case['cons']:
             kid = T.Tree(T.make_node_data())
             kid.data.update(label='NN', word='w', num=1, edge='--')
